@@ -1472,3 +1472,47 @@ def rule_append_gap_filled(ctx):
             ctx.violated("GAPZERO", key, f.where(line), "the branch that extends an appendable element in place never writes the bytes between the old end and `posn`: after a truncate they still hold the old data, which then reads back inside the element")
     ctx.floor("GAPZERO", 1, n, "(in-place extensions of an appendable element)")
     return n
+
+
+def rule_zero_length_is_rest(ctx):
+    """ZEROREST (C05, C01): Hread(aid, 0, buf) means "the rest of the element from the current position".  Every read routine
+    of a storage kind that translates the 0 does so with a difference that involves the position (`length = X->length -
+    access_rec->posn`); `length = X->length` alone is right only at position 0 - after a partial read it asks the coder for
+    more than is left, the returned count is wrong and the caller's buffer, sized for the remainder, is overrun."""
+    from .codec import ast_walk
+    prog = ctx.prog
+    n = 0
+    for f in prog.lib_funcs():
+        ast = f.raw.get("ast")
+        if not ast or not f.rel.startswith("hdf/src/"):
+            continue
+        params = {(p[0] if isinstance(p, (list, tuple)) else p.get("name")) for p in f.params}
+        if "length" not in params or not any("accrec_t" in ((p[1] if isinstance(p, (list, tuple)) else p.get("type")) or "") for p in f.params):
+            continue
+        found = []
+
+        def vis(nd, st):
+            if nd[0] == "if" and nd[1] is not None:
+                c = strip(nd[1])
+                if kind(c) == "bin" and c[1] == "==" and kind(strip(c[2])) == "var" and strip(c[2])[1] == "length" and is_int(c[3], 0):
+                    for e, _k in __import__("h4rules.rules_loops", fromlist=["seq_of"]).seq_of(nd[2]):
+                        for x in walk(e, True):
+                            if x[0] == "asg" and x[1] == "=" and kind(strip(x[2])) == "var" and strip(x[2])[1] == "length":
+                                found.append((nd, x[3]))
+            return True
+
+        ast_walk(ast, vis)
+        for k, (nd, rhs) in enumerate(found, 1):
+            n += 1
+            key = "ZEROREST:%s#%d" % (f.name, k)
+            line = nd[-3] if isinstance(nd[-3], int) else f.line
+            r = strip(rhs)
+            uses_posn = any(x[0] == "mem" and x[2] == "posn" for x in walk(r, True)) or any(x[0] == "var" and "posn" in x[1] for x in walk(r, True))
+            if f.name in ("HRPread", "HRPwrite"):
+                ctx.excepted("ZEROREST", key, f.where(line), "old-style compressed raster: only whole-image transfers are accepted and every transfer starts at 0, so the image size is what is left")
+            elif kind(r) == "bin" and r[1] == "-" and uses_posn:
+                ctx.holds("ZEROREST", key, f.where(line), "a length of 0 becomes `%s`: what is left from the current position" % render(r)[:50], nontrivial=True)
+            else:
+                ctx.violated("ZEROREST", key, f.where(line), "a length of 0 becomes `%s`, which does not take the current position off: after a partial read the request exceeds what is left" % render(r)[:50])
+    ctx.floor("ZEROREST", 3, n, "(translations of a zero read length)")
+    return n
